@@ -9,6 +9,7 @@ import (
 	"fmt"
 	"os"
 	"go/types"
+	"sort"
 	"sync"
 )
 
@@ -72,6 +73,10 @@ type goroutine struct {
 	op   *pendingOp
 	done bool
 	clk  vclock
+	// Go-like ordering (Cfg.GoOrder): tick at which the goroutine last became
+	// ready to run, and whether it has been ready since it last parked
+	readyAt int
+	ready   bool
 }
 
 type transition struct {
@@ -93,6 +98,8 @@ type scheduler struct {
 	preemptions int
 	nextChan    int
 	switches    int
+	tick        int
+	runnext     *goroutine
 }
 
 func newScheduler(ps *pathState) *scheduler {
@@ -124,6 +131,8 @@ func (s *scheduler) spawn(name string, body func()) {
 	g.clk = s.cur.clk.fork(g.id, s.cur.id)
 	s.cur.clk = s.cur.clk.tick(s.cur.id)
 	g.op = &pendingOp{kind: opResume}
+	s.tick++
+	g.readyAt, g.ready = s.tick, true
 	s.gs = append(s.gs, g)
 	s.wg.Add(1)
 	go func() {
@@ -195,6 +204,7 @@ func (s *scheduler) park(op *pendingOp) {
 	g := s.cur
 	g.seq++
 	g.op = op
+	g.ready = false
 	s.dispatch(g)
 	if s.cur != g {
 		s.cur.wake <- struct{}{}
@@ -405,6 +415,9 @@ func (s *scheduler) dispatch(from *goroutine) {
 			others = append(others, i)
 		}
 	}
+	if s.ps.eng.Cfg.GoOrder {
+		s.goOrder(ts, others, from)
+	}
 	var alts []int
 	alts = append(alts, mine...)
 	bound := s.ps.eng.Cfg.PreemptionBound
@@ -432,6 +445,38 @@ func (s *scheduler) dispatch(from *goroutine) {
 	}
 	s.execute(t)
 	s.cur = t.g
+}
+
+// goOrder sorts the transitions of goroutines other than the running one the
+// way a single-P Go runtime would pick them: the goroutine most recently
+// readied by a channel operation first (runnext), then first-ready first-run.
+func (s *scheduler) goOrder(ts []transition, others []int, from *goroutine) {
+	s.tick++
+	for _, i := range others {
+		g := ts[i].g
+		if !g.ready {
+			g.ready, g.readyAt = true, s.tick
+		}
+	}
+	key := func(i int) (int, int, int) {
+		g := ts[i].g
+		rn := 1
+		if g == s.runnext || (ts[i].partner != nil && ts[i].partner == s.runnext) {
+			rn = 0
+		}
+		return rn, g.readyAt, g.id
+	}
+	sort.SliceStable(others, func(a, b int) bool {
+		a0, a1, a2 := key(others[a])
+		b0, b1, b2 := key(others[b])
+		if a0 != b0 {
+			return a0 < b0
+		}
+		if a1 != b1 {
+			return a1 < b1
+		}
+		return a2 < b2
+	})
 }
 
 func opName(op *pendingOp) string {
